@@ -1581,10 +1581,10 @@ bool ParseN2kPGN129041(const tN2kMsg &N2kMsg, tN2kAISAtoNReportData &N2kData) {
     N2kData.Longitude=N2kMsg.Get4ByteDouble(1e-07, Index);
     N2kData.Latitude=N2kMsg.Get4ByteDouble(1e-07, Index);
     vb=N2kMsg.GetByte(Index); N2kData.Accuracy=(vb & 0x01); N2kData.RAIM=(vb>>1 & 0x01); N2kData.Seconds=(vb>>2 & 0x3f);
-    N2kData.Length=N2kMsg.Get2ByteDouble(0.1, Index);
-    N2kData.Beam=N2kMsg.Get2ByteDouble(0.1, Index);
-    N2kData.PositionReferenceStarboard=N2kMsg.Get2ByteDouble(0.1, Index);
-    N2kData.PositionReferenceTrueNorth=N2kMsg.Get2ByteDouble(0.1, Index);
+    N2kData.Length=N2kMsg.Get2ByteUDouble(0.1, Index);
+    N2kData.Beam=N2kMsg.Get2ByteUDouble(0.1, Index);
+    N2kData.PositionReferenceStarboard=N2kMsg.Get2ByteUDouble(0.1, Index);
+    N2kData.PositionReferenceTrueNorth=N2kMsg.Get2ByteUDouble(0.1, Index);
     vb=N2kMsg.GetByte(Index); 
     N2kData.AtoNType=(tN2kAISAtoNType)(vb & 0x1f); 
     N2kData.OffPositionIndicator=(vb >> 5  & 0x01); 
